@@ -8,7 +8,7 @@ def run(c):
               "scale the real data_model.GetTimescale builds: fine (step 0/1/5/10/15, dense events), coarse (steps 2/10/20/30/45/60/120/300/600/7200 "
               "incl. steps that are not LOD levels, served on a finer grid; at most one event per series and grid point) or two LODs (the query "
               "crosses the minute-table/second-table boundary); 1-3 expressions = trees of unary operators (sum/min/max/avg/count/group/stddev/"
-              "stdvar/quantile with by/without (labels also repeated or given by another name of the same tag: canonical id <i>, legacy key<i> next to the custom name), topk/bottomk, *_over_time incl. quantile_over_time with matrix or subquery ranges of <1, 1, 2, 3 "
+              "stdvar/quantile with by/without (labels also repeated or given by another name of the same tag: canonical id <i>, legacy alias key<i>, also alone), topk/bottomk, *_over_time incl. quantile_over_time with matrix or subquery ranges of <1, 1, 2, 3 "
               "grid points, parentheses, `+ 0` rule breakers, optional __what__) and vector-vector binary operators (+ - * / == > < >= <= with "
               "default, on(..) and ignoring(..) one-to-one matching; half of them agg by (L) (x op x | agg without () (x) | ..) op agg by (L) (..)), "
               "each run through the real Engine; cases that leave float64's exact domain, depend on a weight tie or on a scalar-left comparison tie "
@@ -21,7 +21,7 @@ def run(c):
                       "exact arithmetic in the model: inputs are chosen so that every float64 operation is exact (re-checked with big.Rat per case); "
                       "rounding behaviour is judged by the numeric oracle stream only (relative 1e-6 + floor; the current code's worst observed error "
                       "is < 1e-4 of that tolerance)"]
-    c.prove("SH.Props.C27", extra_files=["SH/Model/PromEval.lean", "SH/Lemmas/PromWindow.lean", "SH/Lemmas/PromReduce.lean"])
+    c.prove("SH.Props.C27", extra_files=["SH/Model/PromEval.lean", "SH/Lemmas/PromWindow.lean", "SH/Lemmas/PromWindowG.lean", "SH/Lemmas/PromReduce.lean"])
     drv = c.driver(DRIVER)
     binary = c.go_build(HARNESS)
     if binary and drv:
@@ -61,14 +61,21 @@ META = {
              "equal matching label sets; grouping (engine-side and pushed-down) depends only on the set of resolved tag indices (groupKey_dedup, rule0_dedup). The model is tied to the code by diffing every result point of generated expressions run through the real "
              "engine on time scales built by the real GetTimescale; direct oracles: def-* (big.Rat definitions), def-*-numeric (outside the exact "
              "domain, relative tolerance), reduce-* (pushed-down vs engine-side evaluation)."),
-    "note": ("Still partial: over_time_is_definition is proved for uniform grids only (two-LOD grids: correspondence + oracle); the over-time push-down "
-             "(rule #1) is proved equal to the storage query and that query to the aggregate of per-series storage values, but its equality with the "
-             "engine's window evaluation over one-second data is judged by the reduce-* oracle only; stddev on non-squares, the order of groups, "
+    "note": ("Round 3: over_time_is_definition_general proves the window definition on arbitrary (two-LOD) grids, given the left edge L r "
+             "characterised by the cursor's own test with the point's bucket width (instance: a concrete two-LOD grid); "
+             "overtime_pushdown_two_grids proves that rule #1's storage pre-aggregate of a bucket equals f_over_time over the one-second points of "
+             "that bucket for sum/min/max/count (count: missing vs 0), avg at the row level, with at most one event per second of the grid. "
+             "Still partial: a closed form of L for every two-LOD grid is not derived (L is a hypothesis satisfied by construction/decide); strict "
+             "functions with a range narrower than a coarse bucket are excluded by hypothesis; rules #2/#3 are proved equal to the storage query and "
+             "that query to the aggregate of per-series storage values, their two-grid form is oracle-only; stddev on non-squares, group order, "
              "the weight function of topk are correspondence-only. Trusted: Lean kernel; the Handler stub (storage contract; it calls the real "
-             "tsValues.merge/value); model in exact arithmetic (float rounding only through the numeric oracle stream); one time shift, no filters; "
-             "binary operators one-to-one without bool/!=/set operators; histogram_quantile, predict_linear out of scope. Known finding: "
-             "stdvar/stddev_over_time push-down (sample vs population variance). Observation (not alarmed, not generated alone): the legacy alias key<i> WITHOUT the custom name is resolved by the storage query but not by the engine-side label hash (`sum by (key1) (m + 0)` groups by the tag yet drops it from the result, `without (key1)` does not exclude it), so pushed-down and engine-side results differ for it. Observation, NOT a C27 violation (binary comparisons are not among "
-             "the property's operators) and not alarmed (cases regenerated): with the label-less scalar operand on the LEFT of an ordering comparison "
-             "evalBinary's swapped operator table (GTR->LTE, GTE->LSS, LSS->GTE, LTE->GTR) differs from the mirrored operator on ties."),
+             "tsValues.merge/value); exact arithmetic (float rounding only through the numeric oracle stream); one time shift, no filters; binary "
+             "operators one-to-one without bool/!=/set operators; histogram_quantile, predict_linear out of scope. Known finding: stdvar/"
+             "stddev_over_time push-down (sample vs population variance). DEFECT reported with fix (fixes/C27-group-alias.diff): a grouping label "
+             "given only by the legacy alias key<i> is resolved by the pushed-down storage query but not by the engine-side label hash, so "
+             "`sum by (key1) (m)` pushed down differs from its engine-side evaluation (repo_alias_violates; the check is red on a tree without the "
+             "fix). Observation, NOT a C27 violation (binary comparisons are not among the property's operators) and not alarmed (cases "
+             "regenerated): with the label-less scalar operand on the LEFT of an ordering comparison evalBinary's swapped operator table "
+             "(GTR->LTE, GTE->LSS, LSS->GTE, LTE->GTR) differs from the mirrored operator on ties."),
     "design_ref": "DESIGN.md §6 C27",
 }
